@@ -250,6 +250,11 @@ func genScenario(src *tape.Source) *scenario {
 			sc.MaxLen = 40
 			sc.Args = append(sc.Args, "--max-length", "40")
 		}
+		if !sc.AutoFix && src.Intn(4, "c19.lintout") == 3 {
+			// the report goes to a file (global -o): same verdict, and the file is never half-written
+			sc.OutFile = "lint.out"
+			sc.Args = append(sc.Args, "-o", "lint.out")
+		}
 		if !sc.AutoFix && input < 6 && src.Intn(4, "c19.security") == 3 {
 			// the security scanner's findings fail the run too (file mode only)
 			sc.Security = true
@@ -302,6 +307,10 @@ func genScenario(src *tape.Source) *scenario {
 		case 6:
 			sc.TokensOnly = true
 			sc.Args = append(sc.Args, "--tokens")
+		}
+		if src.Intn(5, "c19.parseout") == 4 {
+			sc.OutFile = "parse.out"
+			sc.Args = append(sc.Args, "-o", "parse.out")
 		}
 		if input < 6 {
 			sc.Files = sc.Files[:1]
@@ -697,6 +706,12 @@ func (p *P) Run(src *tape.Source, trace bool) *core.Result {
 	}
 	p.verdictOracles(r, sc, base)
 	mutating := sc.UsesFiles && (sc.InPlace || sc.AutoFix) || sc.OutFile != ""
+	if sc.Cmd == "lint" && sc.OutFile != "" {
+		// messages of L006/L009 depend on map order: such a report has no reproducible "complete new content"
+		if out := base.Files[sc.OutFile].Content; strings.Contains(out, "L006") || strings.Contains(out, "L009") {
+			mutating = false
+		}
+	}
 	if mutating && len(r.Violations) == 0 {
 		p.faultPasses(r, src, sc, base, trace)
 	}
@@ -863,8 +878,12 @@ func (p *P) verdictOracles(r *core.Result, sc *scenario, base *outcome) {
 		p.reportOracle(r, sc, data, rejected, ins)
 	}
 	if sc.Cmd == "parse" && contains(sc.Args, "json") && base.Exit == 0 {
-		if !json.Valid([]byte(base.Stdout)) {
-			r.Fail("report-well-formed", "parse -f json", fmt.Sprintf("%s: stdout is not valid JSON: %q", desc, clip(base.Stdout, 200)))
+		data := base.Stdout
+		if sc.OutFile != "" && base.Stdout == "" {
+			data = base.Files[sc.OutFile].Content // wherever the command put its output
+		}
+		if !json.Valid([]byte(data)) {
+			r.Fail("report-well-formed", "parse -f json", fmt.Sprintf("%s: output is not valid JSON: %q", desc, clip(data, 200)))
 		}
 	}
 }
